@@ -70,6 +70,9 @@ func checkC18(c *Ctx) error {
 				if strings.HasPrefix(k, "fault_close") && v == 1 {
 					skip = true // a failing close cannot be injected natively
 				}
+				if strings.HasPrefix(k, "env_") {
+					skip = true // environment facts (stat results, timestamps) are not realised for samples
+				}
 			}
 			if skip {
 				continue
